@@ -95,6 +95,8 @@ SKEL = {
     "include_dir_name": "{% include 'sub/q.liquid' with x %}{% include 'sub/q.liquid' with x as v %}",
     "include_dynamic": "{% assign name = 'p' %}{% include name, v: x %}{% include missing %}",
     "include_break": "{% for v in xs %}{% include 'brk' %}{% endfor %}",
+    "render_break": "{% for v in xs %}{% render 'brk', v: v, x: x %}|{% endfor %}done{% tablerow v in xs cols: 2 %}{% render 'brk', v: v, x: y %}{% endtablerow %}"
+                    "{% macro m v %}{% if v == x %}{% continue %}{% endif %}({{ v }}){% endmacro %}{% for v in xs %}{% call m v %}{% endfor %}",
     "render_plain": "{% assign v = x %}{% render 'p' %}{% render 'p', v: y, p: x %}",
     "render_with_for": "{% render 'p' with x %}{% render 'p' with y as v %}{% render 'p' for xs %}{% render 'p' for xs as v %}",
     "render_dir_name": "{% render 'sub/q.liquid' with x %}{% render 'sub/q.liquid' for xs as v %}",
@@ -178,7 +180,7 @@ def _mk_render_str(kind):
 CONDITIONS = []
 _QUICK = {"out_bracket_root", "out_nested_path", "out_filters", "out_ternary", "if_chain", "if_ops", "unless_chain", "case_when", "for_args",
           "for_continue", "for_break", "tablerow_args", "tablerow_cols_break", "capture", "cycle", "ifchanged", "liquid_tag", "include_with_for", "include_dir_name",
-          "include_break", "render_with_for", "render_dir_name", "render_missing", "extends_chain", "macro_call", "with_tag", "snippet",
+          "include_break", "render_break", "render_with_for", "render_dir_name", "render_missing", "extends_chain", "macro_call", "with_tag", "snippet",
           "include_name_clash", "render_name_clash", "with_macro_name_clash", "translate", "counters", "block_standalone", "render_error_inside", "if_lt", "if_all_ops", "if_contains", "out_range", "gettext_filters"}
 _QUICK_STR = {"out_bracket_root", "out_filters", "out_string_ops", "if_contains", "if_empty_blank", "case_when", "for_hash_string", "include_with_for",
               "render_with_for", "translate", "capture", "out_ternary"}
